@@ -75,6 +75,10 @@ pub struct Case {
 	/// and the far end also depend on one of the libraries (the same libraries the other roots reach at small depth)
 	#[serde(default)]
 	pub chain: u16,
+	/// > 0: every POM that manages anything manages that many further (never used) artifacts as well, so that the effective
+	/// management lists grow to 60 ... 200 entries
+	#[serde(default)]
+	pub bulk_managed: u8,
 }
 
 fn raw_dep() -> impl Strategy<Value = RawDep> {
@@ -100,8 +104,9 @@ fn strategy() -> impl Strategy<Value = Case> {
 		1u8..4,
 		proptest::collection::vec(raw_pom(0), 0..3),
 		prop_oneof![12 => Just(0u16), 2 => 1u16..=40, 1 => 28u16..=36, 2 => 60u16..=70, 1 => 96u16..=104, 1 => 124u16..=132, 1 => 40u16..=300],
+		prop_oneof![7 => Just(0u8), 1 => 20u8..=90],
 	)
-		.prop_map(|(libs, parents, boms, roots, n_repos, bom_parents, chain)| Case { libs, parents, boms, roots, n_repos, bom_parents, chain })
+		.prop_map(|(libs, parents, boms, roots, n_repos, bom_parents, chain, bulk_managed)| Case { libs, parents, boms, roots, n_repos, bom_parents, chain, bulk_managed })
 }
 
 // ---------------------------------------------------------------------------------------------
@@ -362,6 +367,11 @@ fn build_universe(case: &Case) -> Result<Universe, String> {
 				v.push(XDep { group: g, artifact: a, version: Some(ver), type_: t, classifier: c, scope: scope_s(m.scope), optional: m.optional });
 			}
 		}
+		if !v.is_empty() {
+			for i in 0..case.bulk_managed as usize {
+				v.push(XDep { group: "org.fill".into(), artifact: format!("fill{i}"), version: Some(format!("{}.0", 1 + (i + min_lib) % 3)), type_: None, classifier: None, scope: if i % 5 == 0 { Some("runtime".into()) } else { None }, optional: None });
+			}
+		}
 		v
 	};
 	// parents of BOMs
@@ -461,7 +471,17 @@ fn build_universe(case: &Case) -> Result<Universe, String> {
 			let (dg, da, dv) = lib_gav(l, k % case.libs[l].len());
 			deps.insert((k % 2).min(deps.len()), XDep { group: dg, artifact: da, version: Some(dv), type_: None, classifier: None, scope: None, optional: None });
 		}
+		// deep in the line the first link's artifact comes back in another version: as another artifact (classifier, type),
+		// which is no rival of the first link, and once as the same artifact, which loses to it
+		if chain >= 3 && (k + 1 == chain || k == chain / 2 || k == chain / 3) {
+			let (type_, classifier) = if k + 1 == chain { (None, Some("adapters".to_string())) } else if k == chain / 2 { (Some("test-jar".to_string()), None) } else { (None, None) };
+			deps.push(XDep { group: "org.chain".into(), artifact: "link0".into(), version: Some("0.9".into()), type_, classifier, scope: None, optional: None });
+		}
 		poms.insert(("org.chain".to_string(), format!("link{k}"), "1.0".to_string()), XPom { group: "org.chain".into(), artifact: format!("link{k}"), version: "1.0".into(), write_group: true, write_version: true, packaging: None, parent: None, managed: vec![], deps, repos: repos_of((k as u8).wrapping_mul(37)) });
+	}
+	if chain >= 3 {
+		let (dg, da, dv) = lib_gav(nl - 1, 0);
+		poms.insert(("org.chain".to_string(), "link0".to_string(), "0.9".to_string()), XPom { group: "org.chain".into(), artifact: "link0".into(), version: "0.9".into(), write_group: true, write_version: true, packaging: None, parent: None, managed: vec![], deps: vec![XDep { group: dg, artifact: da, version: Some(dv), type_: None, classifier: None, scope: None, optional: None }], repos: repos_of(5) });
 	}
 	// a dependency may omit its version only where the effective management has it
 	let keys: Vec<_> = poms.keys().filter(|k| k.0 != "org.chain").cloned().collect();
@@ -662,6 +682,9 @@ fn check(case: &Case, obs: &mut Obs) -> PropResult {
 	obs.label_if(u.poms.values().any(|p| p.parent.is_some()), "parent");
 	obs.label_if(u.poms.values().any(|p| p.managed.iter().any(|m| m.scope.as_deref() == Some("import"))), "bom_import");
 	obs.label_if(u.n_repos > 1, "several_repositories");
+	let longest_dm = u.poms.keys().filter_map(|g| effective(&u.poms, g, 0).ok()).map(|e| e.dm.len()).max().unwrap_or(0);
+	obs.label(format!("longest_effective_management:{}", match longest_dm { 0..=15 => "<=15", 16..=63 => "16..63", 64..=127 => "64..127", _ => ">=128" }));
+	obs.label_if(case.chain >= 3, "artifact_of_an_ancestor_comes_back_with_another_classifier_or_type");
 	let inherits = |p: &XPom| p.parent.as_ref().map_or(false, |g| effective(&u.poms, g, 0).map_or(false, |e| !e.dm.is_empty()));
 	obs.label_if(u.poms.values().any(|p| p.artifact.starts_with("bom") && !p.artifact.starts_with("bomparent") && inherits(p)), "imported_bom_inherits_management_from_its_parent");
 	fn height(t: &TNode) -> usize {
